@@ -288,6 +288,13 @@ def _element_structs(rec, R, F, bearing, traits_adts, im, fn, short, fname, fty)
                     for e in pl["p"]:
                         if e[0] == "field" and len(e) > 3:
                             handed.add((e[3], e[2]))
+    # .. or referenced there in any other way (`[&c.class as &dyn Trace, &c.method as &dyn Trace]` yielded by an iterator)
+    for b in bodies:
+        for bi, si, s_ in b.stmts():
+            for pl in sem.places_in_rvalue(s_["r"]):
+                for e in pl["p"]:
+                    if e[0] == "field" and len(e) > 3:
+                        handed.add((e[3], e[2]))
     for E in elems:
         adt = F.adts[E]
         if adt["enum"]:
